@@ -45,6 +45,9 @@ func c14Oracle(sp *Spec, x *X, res *mcrt.Result) (string, string) {
 					continue
 				}
 				name := fmt.Sprintf("d%d%c%d", b, "pa"[side], k)
+				if x.ShutCountAtWait(name) != 1 {
+					return "listener-before-wait", fmt.Sprintf("shutdown listener %s (wrapped %d deep) had been notified %d times when Wait returned", name, d.Depth, x.ShutCountAtWait(name))
+				}
 				if x.ShutCount(name) != 1 {
 					return "listener-count", fmt.Sprintf("shutdown listener %s (wrapped %d deep) notified %d times", name, d.Depth, x.ShutCount(name))
 				}
@@ -118,6 +121,9 @@ func c14Programs(tier string) []*Spec {
 					sp := &Spec{Name: fmt.Sprintf("c14-%s-%s-n%d", how, variant, n), Refresh: rf, Q: -1, Notifier: true}
 					for i := 0; i < n; i++ {
 						bs := BarSpec{Total: 3, Pre: []DecorSpec{listenD(i, true)}, App: []DecorSpec{listenD(2+i, false), {Sync: true, Wrap: "both", Widths: []int{3}}}}
+						if variant == "idle" && i == n-1 {
+							bs.Total = 0 // a bar of unknown total that nobody touches: ended only by the cancellation
+						}
 						sp.Bars = append(sp.Bars, bs)
 						sp.Main = append(sp.Main, Op{K: "add", B: i})
 					}
